@@ -34,6 +34,11 @@ def run(cx: Cx):
         _check_query(cx, cx.fn(f"{DW}.{name}"), manhattan)
     _check_centre(cx)
     _check_dispatch(cx)
+    from .common import check_pure, check_result_fresh
+    for name in ('get_moore_neighbours', 'get_neumann_neighbours', 'get_neighbours', '_get_cell_pos_as_tuple'):
+        check_pure(cx, f"{DW}.{name}")
+    for name in ('get_moore_neighbours', 'get_neumann_neighbours'):
+        check_result_fresh(cx, f"{DW}.{name}")
 
 
 def _check_query(cx: Cx, fn, manhattan: bool):
@@ -202,6 +207,17 @@ def _check_centre(cx: Cx):
         where = cx.where(gp, p.last.line if p.last else None)
         if implies(c, AIsInst(cp, Sym('int'))) is None:
             seen.add('int')
+            want = Sub(Sub(Attr(ps, 'cells'), Const('pos')), cp)
+            from .geom import layers
+            from sa.terms import mul as _mul
+            nx, ny = layers(Attr(ps, 'width')), layers(Attr(ps, 'height'))
+            inverse = TupleT((App('%', (cp, nx)), App('%', (App('//', (cp, nx)), ny)), App('//', (cp, _mul(nx, ny)))))
+            if v == want or v == inverse:
+                cx.ok('R-FWD', "cell-id centre -> row id of the 'pos' column", where=where, function=gp.qualname)
+            else:
+                cx.violation('R-FWD', gp.qualname, 'id-centre-through-the-position-table',
+                             f"a cell-id centre becomes {v!r}; it must be read from the world's own position table, cells['pos'][id] "
+                             f"(any re-derived inverse must agree with the table on non-cubic and degenerate shapes)", where=where)
         elif implies(c, AIsInst(cp, Sym('tuple'))) is None:
             seen.add('tuple')
             if v == cp:
